@@ -157,6 +157,11 @@ func (r *runner) all(stream string, u *universe.NpmUniverse, maxRoots int) {
 	if err != nil {
 		panic(err)
 	}
+	if _, res := r.c.Op("C06 classify " + table + " " + body); strings.HasPrefix(res, "ok ") {
+		for _, kv := range strings.Fields(res)[1:] {
+			r.c.Count("hyp." + kv)
+		}
+	}
 	idx := r.c.Rng.Perm(len(u.Versions))
 	if maxRoots > 0 && len(idx) > maxRoots {
 		idx = idx[:maxRoots]
